@@ -1,7 +1,7 @@
 """Functions of spydrnet/ir under contract: (class, name, kind, [(param, kind)]).
 Parameter kinds: any = untyped reference (any IR class, None, foreign); optint = None|int; iter = set|list|non-iterable;
 key = str data key other than '.NS'; none = the argument is None (stated scope restriction)."""
-_CTOR = [('name', 'any'), ('properties', 'none')]
+_CTOR = [('name', 'any'), ('properties', 'optpdict')]
 _BND = [('is_downto', 'any'), ('is_scalar', 'any'), ('lower_index', 'any')]
 FUNCTIONS = [
     # ---- Cable
